@@ -14,7 +14,7 @@ from ..flow import Enumerator, RETURN, fmt
 from ..symx import Expander, TupleV
 from ..anf import R, Unsupported
 from .. import anf
-from .common import struct_ob, formula_ob, guard, last_return
+from .common import struct_ob, formula_ob, guard, last_return, U
 from . import mcmc
 from ..report import AnalysisError
 
@@ -108,14 +108,14 @@ def _splitting(prog, ci, c, fn, unroll):
         v = ex.eval(expr, dict(env))
         atoms = [a for a in v.all_atoms() if a[0] == "fn" and a[1] == fname]
         if len(atoms) != 1:
-            raise Unsupported(f"update `{ast.unparse(expr)}` is not a multiple of one {fname}(.) value")
+            raise Unsupported(f"update `{U(expr)}` is not a multiple of one {fname}(.) value")
         cf = v.div(R.atom(atoms[0]))
         if any(a == ("sym", "t") or a == ("sym", "r") for a in cf.all_atoms()):
             raise Unsupported(f"coefficient of {fname} depends on the state: {cf}")
         arg = anf.REG.get(atoms[0][2])[0]
         dep = {a[1] for a in arg.all_atoms() if a[0] == "sym"}
         if must_not in dep:
-            shear_problems.append(f"`{ast.unparse(expr)}`: the increment depends on the variable it updates (not a shear)")
+            shear_problems.append(f"`{U(expr)}`: the increment depends on the variable it updates (not a shear)")
         return cf
 
     def classify(node):
@@ -127,14 +127,14 @@ def _splitting(prog, ci, c, fn, unroll):
                 elif node.target.id == t and isinstance(node.op, ast.Add):
                     ev.append(("D", node.lineno, str(coeff(node.value, "self.mass.get_velocity", "t"))))
                 elif node.target.id == r and isinstance(node.op, ast.Mult):
-                    ev.append(("F", node.lineno, ast.unparse(node.value)))
+                    ev.append(("F", node.lineno, U(node.value)))
                 else:
-                    ev.append(("X", node.lineno, ast.unparse(node)))
+                    ev.append(("X", node.lineno, U(node)))
             elif isinstance(node, ast.Assign) and isinstance(node.value, ast.Call) \
-                    and ast.unparse(node.value.func) == "self.bounds.reflect_momenta":
+                    and U(node.value.func) == "self.bounds.reflect_momenta":
                 ev.append(("R", node.lineno, ""))
             elif isinstance(node, ast.Assign) and any(isinstance(x, ast.Name) and x.id in (t, r) for tg in node.targets for x in ast.walk(tg)):
-                ev.append(("X", node.lineno, ast.unparse(node)))
+                ev.append(("X", node.lineno, U(node)))
         except Unsupported as e:
             ev.append(("X", node.lineno, str(e)))
         return ev
@@ -199,16 +199,16 @@ def _mass(prog):
         rname = gv.args.args[1].arg
         v = ret.value
         elementwise = isinstance(v, ast.BinOp) and isinstance(v.op, ast.Mult) and \
-            {ast.unparse(v.left), ast.unparse(v.right)} == {rname, "self.inv_mass"}
-        matrix = isinstance(v, ast.BinOp) and isinstance(v.op, ast.MatMult) and ast.unparse(v.left) == "self.inv_mass" \
-            and ast.unparse(v.right) == rname
+            {U(v.left), U(v.right)} == {rname, "self.inv_mass"}
+        matrix = isinstance(v, ast.BinOp) and isinstance(v.op, ast.MatMult) and U(v.left) == "self.inv_mass" \
+            and U(v.right) == rname
         out.append(struct_ob("mass-law", qual(c, gv) + f"[{ci.name}]", elementwise or matrix,
-                             f"velocity must be inv_mass * r (diagonal) or inv_mass @ r (full); is `{ast.unparse(v)}`",
+                             f"velocity must be inv_mass * r (diagonal) or inv_mass @ r (full); is `{U(v)}`",
                              MASS, gv.lineno, slots={"form": "elementwise" if elementwise else "matrix" if matrix else "?"}))
         # momentum law: variance of the draw is the inverse of inv_mass
         sret = last_return(sm)
         draws = [n for n in ast.walk(sret.value) if isinstance(n, ast.Call) and isinstance(n.func, ast.Attribute) and n.func.attr == "normal"]
-        ok, why = False, f"`{ast.unparse(sret.value)}`"
+        ok, why = False, f"`{U(sret.value)}`"
         if len(draws) == 1:
             if elementwise:
                 scale = get_kw(draws[0], "scale")
@@ -226,21 +226,21 @@ def _mass(prog):
                 # L @ normal(size=n) with L = solve_triangular(cholesky(inv_mass), eye(n), lower=True).T
                 # then L L^T = (C^-1)^T C^-1 = (C C^T)^-1 = inv_mass^-1
                 v2 = sret.value
-                okp = isinstance(v2, ast.BinOp) and isinstance(v2.op, ast.MatMult) and ast.unparse(v2.left) == "self.L" \
+                okp = isinstance(v2, ast.BinOp) and isinstance(v2.op, ast.MatMult) and U(v2.left) == "self.L" \
                     and v2.right is draws[0] and get_kw(draws[0], "scale") is None and get_kw(draws[0], "loc") is None
                 init = ci.methods.get("__init__")
-                src = {ast.unparse(s.targets[0]): s.value for s in ast.walk(init) if isinstance(s, ast.Assign)}
+                src = {U(s.targets[0]): s.value for s in ast.walk(init) if isinstance(s, ast.Assign)}
                 L = src.get("self.L")
                 okL = False
                 if L is not None and isinstance(L, ast.Attribute) and L.attr == "T" and isinstance(L.value, ast.Call) \
-                        and ast.unparse(L.value.func) == "solve_triangular":
+                        and U(L.value.func) == "solve_triangular":
                     call = L.value
                     a0 = call.args[0]
-                    a0v = src.get(ast.unparse(a0)) if isinstance(a0, ast.Name) else a0
+                    a0v = src.get(U(a0)) if isinstance(a0, ast.Name) else a0
                     lower = get_kw(call, "lower")
                     cq = c2.module.imports.get("cholesky", "")
                     chol_lower = cq.startswith("numpy.linalg") or (
-                        isinstance(a0v, ast.Call) and any(k.arg == "lower" and ast.unparse(k.value) == "True" for k in a0v.keywords)
+                        isinstance(a0v, ast.Call) and any(k.arg == "lower" and U(k.value) == "True" for k in a0v.keywords)
                         and cq.startswith("scipy.linalg"))
                     if isinstance(a0v, ast.Call) and not chol_lower:
                         why_chol = (f"; `cholesky` resolves to {cq or 'an unknown callee'}, which does not return the lower factor "
@@ -248,13 +248,13 @@ def _mass(prog):
                     else:
                         why_chol = ""
                     okL = (a0v is not None and chol_lower
-                           and ast.unparse(a0v).split("(")[0] == "cholesky"
-                           and ast.unparse(a0v.args[0]) in ("inv_mass", "self.inv_mass")
-                           and ast.unparse(call.args[1]).startswith("eye(")
-                           and lower is not None and ast.unparse(lower) == "True"
-                           and ast.unparse(src.get("self.inv_mass")) == "inv_mass")
+                           and U(a0v).split("(")[0] == "cholesky"
+                           and U(a0v.args[0]) in ("inv_mass", "self.inv_mass")
+                           and U(call.args[1]).startswith("eye(")
+                           and lower is not None and U(lower) == "True"
+                           and U(src.get("self.inv_mass")) == "inv_mass")
                 ok = okp and okL
-                why = f"draw `{ast.unparse(sret.value)}`; L = `{ast.unparse(L) if L is not None else None}`" + (
+                why = f"draw `{U(sret.value)}`; L = `{U(L) if L is not None else None}`" + (
                     why_chol if "why_chol" in dir() else "")
         out.append(struct_ob("momentum-law", qual(c2, sm) + f"[{ci.name}]", ok,
                              "momenta must be drawn with covariance inverse to inv_mass (the kinetic energy's metric): " + why,
@@ -265,25 +265,25 @@ def _mass(prog):
 def _fd_denominator(c, fd):
     """Every definition of the step h is (+/-) c * F with c a non-zero literal and F positive in its context."""
     quot = [n for n in ast.walk(fd) if isinstance(n, ast.BinOp) and isinstance(n.op, ast.Div)
-            and any(ast.unparse(x.func) == "self.posterior" for x in ast.walk(n.left) if isinstance(x, ast.Call))]
+            and any(U(x.func) == "self.posterior" for x in ast.walk(n.left) if isinstance(x, ast.Call))]
     problems = []
     if len(quot) != 1:
         return struct_ob("fd-denominator", qual(c, fd), False, f"{len(quot)} difference quotients found", HMC, fd.lineno)
     den = quot[0].right
     if not isinstance(den, ast.Name):
-        problems.append(f"denominator `{ast.unparse(den)}` is not the step variable")
+        problems.append(f"denominator `{U(den)}` is not the step variable")
     else:
         h = den.id
-        defs = [n for n in ast.walk(fd) if isinstance(n, ast.Assign) and ast.unparse(n.targets[0]) == h]
+        defs = [n for n in ast.walk(fd) if isinstance(n, ast.Assign) and U(n.targets[0]) == h]
         if not defs:
             problems.append(f"step `{h}` is never defined")
         for d in defs:
             ok, why = _positive_multiple(d.value, h)
             if not ok:
-                problems.append(f"`{ast.unparse(d)}`: {why}")
+                problems.append(f"`{U(d)}`: {why}")
         # numerator's probe moved by the same h in the same coordinate
         probes = [n for n in ast.walk(fd) if isinstance(n, ast.AugAssign) and isinstance(n.op, ast.Add)
-                  and isinstance(n.target, ast.Subscript) and ast.unparse(n.value) == h]
+                  and isinstance(n.target, ast.Subscript) and U(n.value) == h]
         if len(probes) != 1:
             problems.append(f"the probe is not moved by exactly the step `{h}` that divides the difference")
         # the difference is posterior(probe) - posterior(t), both un-tempered evaluations of the user's density
@@ -293,22 +293,22 @@ def _fd_denominator(c, fd):
             lhs, rhs = num.left, num.right
             base = rhs
             if isinstance(rhs, ast.Name):
-                defs_b = [n for n in ast.walk(fd) if isinstance(n, ast.Assign) and ast.unparse(n.targets[0]) == rhs.id]
+                defs_b = [n for n in ast.walk(fd) if isinstance(n, ast.Assign) and U(n.targets[0]) == rhs.id]
                 base = defs_b[0].value if len(defs_b) == 1 else None
             tparam = fd.args.args[1].arg
-            ok_num = (isinstance(lhs, ast.Call) and ast.unparse(lhs.func) == "self.posterior"
-                      and base is not None and ast.unparse(base) == f"self.posterior({tparam})")
+            ok_num = (isinstance(lhs, ast.Call) and U(lhs.func) == "self.posterior"
+                      and base is not None and U(base) == f"self.posterior({tparam})")
             if not ok_num:
-                problems.append(f"the difference `{ast.unparse(num)}` (base value `{ast.unparse(base) if base is not None else None}`) is not "
+                problems.append(f"the difference `{U(num)}` (base value `{U(base) if base is not None else None}`) is not "
                                 f"posterior(probe) - posterior({tparam}): a stored log-probability is tempered and belongs to another call")
         else:
-            problems.append(f"numerator `{ast.unparse(num)}` is not a difference of two posterior evaluations")
+            problems.append(f"numerator `{U(num)}` is not a difference of two posterior evaluations")
     return struct_ob("fd-denominator", qual(c, fd), not problems, "; ".join(problems), HMC, fd.lineno)
 
 
 def _positive_multiple(expr, h):
     """expr == -h, or literal * F where F is 1, a width, or |x| under the guard x != 0 (else a positive literal)."""
-    if isinstance(expr, ast.UnaryOp) and isinstance(expr.op, ast.USub) and ast.unparse(expr.operand) == h:
+    if isinstance(expr, ast.UnaryOp) and isinstance(expr.op, ast.USub) and U(expr.operand) == h:
         return True, ""
     if isinstance(expr, ast.BinOp) and isinstance(expr.op, ast.Mult):
         parts = [expr.left, expr.right]
@@ -316,18 +316,18 @@ def _positive_multiple(expr, h):
         oth = [p for p in parts if p not in lit]
         if len(lit) == 1 and len(oth) == 1:
             f = oth[0]
-            if ast.unparse(f).startswith("self.bounds.width["):
+            if U(f).startswith("self.bounds.width["):
                 return True, ""
             if isinstance(f, ast.IfExp):
                 t = f.test
-                if isinstance(t, ast.Compare) and isinstance(t.ops[0], ast.NotEq) and ast.unparse(t.comparators[0]) in ("0.0", "0"):
-                    x = ast.unparse(t.left)
-                    body_ok = ast.unparse(f.body) == f"abs({x})"
+                if isinstance(t, ast.Compare) and isinstance(t.ops[0], ast.NotEq) and U(t.comparators[0]) in ("0.0", "0"):
+                    x = U(t.left)
+                    body_ok = U(f.body) == f"abs({x})"
                     else_ok = isinstance(f.orelse, ast.Constant) and isinstance(f.orelse.value, (int, float)) and f.orelse.value > 0
                     if body_ok and else_ok:
                         return True, ""
                 return False, "conditional factor is not `abs(x) if x != 0 else <positive literal>`"
-            return False, f"factor `{ast.unparse(f)}` can vanish (e.g. at a zero coordinate)"
+            return False, f"factor `{U(f)}` can vanish (e.g. at a zero coordinate)"
     return False, "not of the form literal * positive factor"
 
 
@@ -347,9 +347,9 @@ def _force(prog, ci, c, fd):
                              slots={"slot_occupants": occupants, "external_allowed": ext}))
     # the slot is bound as `self.finite_diff if grad is None else grad`
     sites = prog.self_assignments(ci, "grad")
-    ok = len(sites) == 1 and ast.unparse(sites[0][3]) == "self.finite_diff if grad is None else grad"
+    ok = len(sites) == 1 and U(sites[0][3]) == "self.finite_diff if grad is None else grad"
     out.append(struct_ob("force-is-potential-gradient", f"{ci.module.name}.HamiltonianChain.__init__[grad-slot]", ok,
-                         f"grad slot binding is `{ast.unparse(sites[0][3]) if sites else None}`", HMC,
+                         f"grad slot binding is `{U(sites[0][3]) if sites else None}`", HMC,
                          sites[0][2].lineno if sites else ci.node.lineno))
     return out
 
@@ -359,11 +359,11 @@ def _reflect_mass(prog, ci):
     out = []
     # the closed set of classes the `mass` slot may hold
     gpm = prog.function(MASS, "get_particle_mass")
-    returned = sorted({ast.unparse(n.value.func) for n in ast.walk(gpm) if isinstance(n, ast.Return)
+    returned = sorted({U(n.value.func) for n in ast.walk(gpm) if isinstance(n, ast.Return)
                        and isinstance(n.value, ast.Call)})
     c, init = prog.method("HamiltonianChain", "__init__")
     # is the (bounds, matrix mass) configuration excluded by the constructor?
-    excluded = any(isinstance(n, ast.If) and "MatrixMass" in ast.unparse(n.test) and "bounds" in ast.unparse(n.test)
+    excluded = any(isinstance(n, ast.If) and "MatrixMass" in U(n.test) and "bounds" in U(n.test)
                    and any(isinstance(b, ast.Raise) for b in n.body) for n in ast.walk(init))
     for cname in returned:
         mc = prog.cls(cname)
@@ -373,7 +373,7 @@ def _reflect_mass(prog, ci):
         elementwise = isinstance(v, ast.BinOp) and isinstance(v.op, ast.Mult)
         ok = elementwise or excluded
         out.append(struct_ob("reflect-commutes-with-mass", f"{ci.module.name}.HamiltonianChain.bounded_leapfrog[{cname}]", ok,
-                             f"with mass class {cname} the velocity is `{ast.unparse(v)}`: a matrix product does not commute with the "
+                             f"with mass class {cname} the velocity is `{U(v)}`: a matrix product does not commute with the "
                              f"component-wise momentum flip of the wall reflection, so the bounded trajectory is not time-reversible "
                              f"once a wall is hit (and the constructor does not exclude bounds together with a full mass matrix)",
                              HMC, gv.lineno, detail=cname, slots={"mass_classes": returned, "excluded_by_ctor": excluded}))
